@@ -356,6 +356,15 @@ func c10R2(c *Ctx) {
 			c.OK(name, p.InstrPos(mu.In), "same slice transferred")
 			continue
 		}
+		// storage reuse: append(existingEntry[:0], …) writes into the backing array of an entry
+		// that, on a parsed message, is a window of the shared Message.fields array
+		if ai := asAppend(v); ai != nil {
+			bo := p.Origin(ai.Base)
+			if bo.Kind == "slice" && fromLookup(bo.Base) || fromLookup(bo) {
+				c.Violation(name, p.InstrPos(mu.In), "entry-storage-reuse", "a field is built by appending into the storage of an existing lookup entry ("+bo.String()+"): entries of a parsed message are windows of one shared field array, so the append overwrites the neighbouring fields' values")
+				continue
+			}
+		}
 		// fresh slice? find its backing: MakeSlice or Slice of Alloc(makeslice)
 		var lenOrg *Org
 		var constLen int64 = -1
